@@ -18,7 +18,7 @@ class Runaway(BaseException):
     stream can never satisfy).  Not caught by the explorer: the case runner reports it as a violation of its own kind."""
 
 
-MAX_CHOICES = 4000
+MAX_CHOICES = 1500
 
 
 class Ctx:
